@@ -180,6 +180,21 @@ def gendep_specs() -> T.List[Spec]:
     return out
 
 
+def partialdep_specs() -> T.List[Spec]:
+    """A generated header handed on with declare_dependency(sources:), where the consumer lists a partial_dependency() of that
+    dependency before the dependency itself."""
+    out: T.List[Spec] = []
+    for rel in ('dep_partial', 'dep_partial_nested'):
+        for cons in (('E', 'plain'), ('L', 'static'), ('L', 'shared')):
+            for chain in (False, True):
+                spec: T.List[Node] = [Node('H', 'plain', ())]
+                if chain:
+                    spec.append(Node('K', 'plain', ((0, 'input'),)))
+                spec.append(Node(cons[0], cons[1], ((len(spec) - 1, rel),)))
+                out.append(tuple(spec))
+    return out
+
+
 def placement_ok(spec: Spec, placement: str) -> bool:
     """'sub' puts H/S/G/C/K into sub/ which is entered before the root targets: not possible when one of them
     consumes a root target (K <- X)."""
@@ -401,6 +416,15 @@ def render(spec: Spec, placement: str = 'root', odd_names: bool = False, with_te
                 elif rel == 'dep':
                     out.append("%s_dep%d = declare_dependency(sources: %s)" % (me, p, ref(p)))
                     kw.setdefault('dependencies', []).append('%s_dep%d' % (me, p))
+                elif rel in ('dep_partial', 'dep_partial_nested'):
+                    # the full dependency comes AFTER a partial view of itself (directly, or wrapped in another dependency)
+                    out.append("%s_dep%d = declare_dependency(sources: %s, compile_args: ['-DHAVE_%s'])" % (me, p, ref(p), me.upper()))
+                    out.append("%s_inc%d = %s_dep%d.partial_dependency(includes: true)" % (me, p, me, p))
+                    first = '%s_inc%d' % (me, p)
+                    if rel == 'dep_partial_nested':
+                        out.append("%s_wrap%d = declare_dependency(dependencies: %s_inc%d)" % (me, p, me, p))
+                        first = '%s_wrap%d' % (me, p)
+                    kw.setdefault('dependencies', []).extend([first, '%s_dep%d' % (me, p)])
                 elif rel == 'inc':
                     pass
                 elif rel == 'link_with':
